@@ -142,7 +142,7 @@ func zzCmpAbs(a, b zzNum) int {
 	if b.fraLen() > fp {
 		fp = b.fraLen()
 	}
-	res := 0
+	res := int8(0) // narrow on purpose: the engine merges differing bytes, not ints
 	// from least significant to most significant; a more significant difference overrides
 	for p := fp - 1; p >= 0; p-- {
 		x, y := a.fraDigit(p), b.fraDigit(p)
@@ -160,7 +160,7 @@ func zzCmpAbs(a, b zzNum) int {
 			res = 1
 		}
 	}
-	return res
+	return int(res)
 }
 
 func zzCmp(a, b zzNum) int {
